@@ -20,7 +20,8 @@ TRUSTED = [
     'reference dictionary of the monitor (harness/props/c03.py RefDict), written from the property text',
 ]
 ASSUMPTIONS = ['one client; the clock is frozen during a call', 'iterators are consumed immediately (mutation between pages of an open iterator is out of scope)',
-               'ordinary numeric keys inside (0, 999999999999999) are queue members by design and are kept out of histories that push with prefix None']
+               'ordinary numeric keys inside (0, 999999999999999) are queue members by design and are kept out of histories that push with prefix None',
+               'histories with integer values outside SQLite\'s signed 64-bit range contain no incr (such a counter is outside the row model, like float counters)']
 
 
 class RefDict:
@@ -243,7 +244,15 @@ def run_histories(ctx, res, nhist, length, stats, many_keys=False):
         w = dict(W)
         if many_keys:
             w.update({'set': 60, 'delete': 10, 'iter': 3, 'iterkeys': 3, 'evict': 1, 'clear': 0})
+        boundary = not many_keys and h % 5 == 2
+        if boundary:
+            # integer keys and values on the representation boundaries in the random histories too; no incr in these (a counter whose value
+            # is outside SQLite's integer range is outside the row model, like float counters)
+            keys = keys + INT_BOUNDARIES[h % 3::3]
+            w['incr'] = 0
         g = gen_hist.Gen(ctx.rng, cfg, weights=w, keys=keys)
+        if boundary:
+            g.vals = g.vals + INT_BOUNDARIES[(h + 1) % 3::3]
         hist = g.history(length)
         r = seqdrv.Runner(ctx, cfg, observe_every=1)
         r.objs = g.objs
@@ -387,7 +396,10 @@ def run(ctx, big=False):
                 'Exhaustive short sequences (length 3 quick / 4 thorough, sampled beyond a cap) over 3 keys (incl. an int/float equal pair), 2 values '
                 '(inline, file-backed), ttl {None,0,1}, clock steps {0,1} x 4 policies x statistics; random histories of 60-400 calls crossing the '
                 '100-row page size of iteration and bulk removal; a pickled key and the bytes key equal to its pickle (same key column, other raw flag) on the '
-                'first two, the last two and the two positions across a page break of key-ordered iteration; after every call: result vs reference, table contents vs reference (every disappearance '
+                'first two, the last two and the two positions across a page break of key-ordered iteration; integer keys AND values on and next to '
+                '+-2^31, +-2^53, +-2^63, +-2^64 (24 integers: each stored as a key with another one as its value, looked up, re-added, replaced, touched, iterated '
+                'in insertion and key order both ways, popped, deleted; also mixed into every fifth random history, which then has no incr) carried by all '
+                'three sides (the model\'s VInt is any Z); after every call: result vs reference, table contents vs reference (every disappearance '
                 'must be explained by expiry or eviction), model vs table.  non-trivial = the call did not return the default.')
     stats = {'ops': {}, 'lazy_expired': 0, 'evicted': 0, 'max_rows': 0, 'short_sequences': 0}
     thorough = not ctx.quick or big
@@ -397,11 +409,12 @@ def run(ctx, big=False):
     t3, r3 = directed(ctx, res, stats)
     t4, r4 = directed_nan_keys(ctx, res, stats)
     t5, r5 = directed_raw_twins(ctx, res, stats)
+    t6, r6 = directed_int_boundaries(ctx, res, stats)
     if not ctx.search_mode:
-        correspondence(ctx, res, t0 + t1 + t2 + t3 + t4 + t5, r0 + r1 + r2 + r3 + r4 + r5)
+        correspondence(ctx, res, t0 + t1 + t2 + t3 + t4 + t5 + t6, r0 + r1 + r2 + r3 + r4 + r5 + r6)
     res.extra.update({'op_histogram': stats['ops'], 'items_removed_lazily_after_expiry': stats['lazy_expired'],
                       'items_evicted_at_limit': stats['evicted'], 'largest_table': stats['max_rows'],
-                      'short_sequences': stats['short_sequences']})
+                      'short_sequences': stats['short_sequences'], 'int_boundary_calls': stats.get('int_boundary_calls', 0)})
     return res
 
 
@@ -470,6 +483,91 @@ def directed_raw_twins(ctx, res, stats):
         res.count(['directed-raw-twins', n_fill], nontrivial=True)
         for sig, what, idx in viol[:1]:
             res.violations.append(fw.Violation(sig, 'keys sharing the key column (tuple and the bytes equal to its pickle) beside %d integer keys: %s' % (n_fill, what),
+                                               dict(gen_hist.history_json(objs, hist[:idx + 1], cfg), check='history', failing_call=idx)))
+
+        class G:
+            pass
+        g = G()
+        g.objs = objs
+        terms.append(seqdrv.history_check_term(r, tr, cfg))
+        recs.append((g, hist, cfg))
+    return terms, recs
+
+
+# Integers on and around the boundaries of the number representations involved: 32-bit, the 53-bit float mantissa, SQLite's signed 64-bit
+# INTEGER (the last native key / value is 2**63 - 1 resp. -2**63; beyond that the storage layer must switch representation, a dictionary
+# does not care) and 64-bit unsigned.
+INT_BOUNDARIES = sorted({s * 2 ** b + d for b in (31, 53, 63, 64) for s in (1, -1) for d in (-1, 0, 1)})
+
+
+def directed_int_boundaries(ctx, res, stats):
+    """Integer KEYS and VALUES on and next to +-2^31, +-2^53, +-2^63, +-2^64 through the three-way check (implementation, reference dictionary,
+    Coq row model: VInt carries any Z, the model's put / store decide native vs pickled).  Every boundary integer is stored as a key (with
+    another boundary integer as its value), looked up, tested for membership, re-added, replaced, iterated in insertion and in key order in both
+    directions, popped and deleted; a dictionary treats all of them alike."""
+    terms, recs = [], []
+    n = len(INT_BOUNDARIES)
+    plans = [('none', 16, False, 0), ('least-recently-used', 0, True, 7), ('least-recently-stored', 64, False, 13)]
+    if ctx.quick and not ctx.search_mode:
+        plans = [plans[0], plans[1 + ctx.seed % 2]]
+    for policy, m, statistics, shift in plans:
+        cfg = seqdrv.Config(policy=policy, min_file_size=m, cull_limit=0, statistics=statistics)
+        objs = list(INT_BOUNDARIES) + ['text', 'x' * 40]
+        order = [(i * 5 + shift) % n for i in range(n)]              # 5 is coprime to 24: a permutation, neighbours apart
+        hist = []
+        now = [1000.0]
+
+        def call(op, **a):
+            now[0] += 0.5
+            hist.append({'op': op, 'args': a, 'now': now[0]})
+        for j, i in enumerate(order):
+            call('set' if j % 3 else 'add', k=i, v=(i + shift + 1) % n, expire=None if j % 4 else 3600, tag=None if j % 2 else 't1')
+        call('len')
+        call('iter')
+        call('reversed')
+        call('iterkeys', reverse=False)
+        call('iterkeys', reverse=True)
+        for j, i in enumerate(order):
+            call('get', k=i, read=False)
+            if j % 2 == 0:
+                call('contains', k=i)
+            if j % 3 == 0:
+                call('add', k=i, v=n, expire=None, tag=None)              # present: refused
+            if j % 4 == 1:
+                call('set', k=i, v=order[(j * 7 + 3) % n], expire=None, tag='t2')      # replace one boundary value by another
+                call('get', k=i, read=False)
+            if j % 4 == 3:
+                call('touch', k=i, expire=7200)
+        call('peekitem', last=True)
+        call('peekitem', last=False)
+        call('stats', enable=True, reset=False)
+        for j, i in enumerate(order):
+            if j % 3 == 0:
+                call('pop', k=i)
+                call('contains', k=i)
+            elif j % 3 == 1:
+                call('delete', k=i)
+                call('get', k=i, read=False)
+            elif j % 6 == 2:
+                call('delitem', k=i)
+        call('len')
+        call('iterkeys', reverse=False)
+        call('evict', tag='t2')
+        call('iter')
+        call('clear')
+        call('len')
+        r = seqdrv.Runner(ctx, cfg, observe_every=1)
+        r.objs = objs
+        tr = r.run(hist)
+        viol = check_trace(r, tr, cfg, stats, True)
+        res.count(['directed-int-boundaries', policy, m], nontrivial=True)
+        for rec in tr.calls:
+            res.count([rec['item']['op'], repr(sorted(rec['item']['args'].items())), rec['item']['now'], 'intb', policy], nontrivial=rec['res'] != 'default')
+        stats['int_boundary_calls'] = stats.get('int_boundary_calls', 0) + len(tr.calls)
+        for sig, what, idx in viol[:1]:
+            a = hist[idx]['args']
+            who = ', '.join('%s=%d' % (nm, objs[a[nm]]) for nm in ('k', 'v') if nm in a and isinstance(objs[a[nm]], int))
+            res.violations.append(fw.Violation(sig, 'integer keys and values on the representation boundaries (%s): %s' % (who, what),
                                                dict(gen_hist.history_json(objs, hist[:idx + 1], cfg), check='history', failing_call=idx)))
 
         class G:
